@@ -26,33 +26,30 @@ fn mk_py(k: usize, rank: &[usize], inv: &[u64], kcount: usize) -> OligoComputer 
     OligoComputer { ksize: k, kcount, pos_map: rank.to_vec(), pos_kmer }
 }
 
-/// Strings of up to N symbolic characters, each ASCII (0x04..=0x7F) or a
-/// two-byte character U+0080..=U+07FF (valid UTF-8 by construction); symbolic norm flag.
-pub fn c13_oligo_ascii<const K: usize, const N: usize>(rank: &[usize], inv: &[u64], kcount: usize) {
+/// Strings of exactly N symbolic characters; character i is a two-byte
+/// character U+0080..=U+07FF if bit i of MASK is set, else ASCII 0x04..=0x7F
+/// (valid UTF-8 by construction).  The shape is concrete per instance so that the
+/// byte length - an allocation size in the code under test - is concrete.
+pub fn c13_oligo_ascii<const K: usize, const N: usize, const MASK: u32>(rank: &[usize], inv: &[u64], kcount: usize) {
     let mut bytes = [0u8; 16];
     let mut len = 0usize;
-    let nchars = any_usize();
-    assume(nchars <= N);
-    let mut two_byte = false;
     let mut i = 0;
     while i < N {
-        if i < nchars {
-            if any_bool() {
-                let cp = any_u32();
-                assume(cp >= 0x80 && cp <= 0x7ff);
-                bytes[len] = 0xc0 | (cp >> 6) as u8;
-                bytes[len + 1] = 0x80 | (cp & 0x3f) as u8;
-                len += 2;
-                two_byte = true;
-            } else {
-                let b = any_u8();
-                assume(b > 3 && b < 0x80);
-                bytes[len] = b;
-                len += 1;
-            }
+        if (MASK >> i) & 1 == 1 {
+            let cp = any_u32();
+            assume(cp >= 0x80 && cp <= 0x7ff);
+            bytes[len] = 0xc0 | (cp >> 6) as u8;
+            bytes[len + 1] = 0x80 | (cp & 0x3f) as u8;
+            len += 2;
+        } else {
+            let b = any_u8();
+            assume(b > 3 && b < 0x80);
+            bytes[len] = b;
+            len += 1;
         }
         i += 1;
     }
+    let two_byte = MASK != 0;
     let norm = any_bool();
     let s = unsafe { String::from_utf8_unchecked(bytes[..len].to_vec()) };
     let py = mk_py(K, rank, inv, kcount);
@@ -66,7 +63,7 @@ pub fn c13_oligo_ascii<const K: usize, const N: usize>(rank: &[usize], inv: &[u6
         check!(v_py[p].to_bits() == v_core[p].to_bits(), "C13: Python oligo vector differs from the core composition row");
     }
     cover!(p < v_py.len() && v_py[p] > 0.0, "req: non-zero entry compared");
-    cover!(two_byte && p < v_py.len() && v_py[p] > 0.0, "req: string with a two-byte character, non-zero entry");
+    cover!(!two_byte || (p < v_py.len() && v_py[p] > 0.0), "opt: string with a two-byte character, non-zero entry");
     cover!(true, "req: end of harness reached");
     core::mem::forget(v_py);
     core::mem::forget(v_core);
